@@ -128,6 +128,7 @@ def tree():
     put('base/root/a b.txt', IN_MARK)
     put('base/root/back\\slash.txt', IN_MARK)
     put('base/root/root2/inner.txt', IN_MARK)
+    put('base/root/arch.tar.gz', IN_MARK)
     put('base/root2/secret.txt', OUT_MARK)
     put('base/root2/index.html', OUT_MARK)
     put('base/rootX/secret.txt', OUT_MARK)
@@ -162,14 +163,16 @@ ROOTS = [
 ]
 SEGS_IN = ['index.html', 'sub', 'page.txt', 'deep', 'x.txt', 'a b.txt', 'emptydir', 'back\\slash.txt', 'root2', 'inner.txt']
 SEGS_OUT = ['root2', 'rootX', 'roo', 'root', 'base', 'Root', 'ROOT', 'BASE', 'Base', 'secret.txt', 'decoy.txt', 'top.txt', 'work', 'etc', 'passwd']
-SEGS_SPECIAL = ['.', '..', '..', '..', '', '...', '. .', '..\\', '\\..', 'a\x00b', '\x00', '%2e%2e', '.\\.']
+SEGS_SPECIAL = ['.', '..', '..', '..', '', '...', '. .', '..\\', '\\..', 'a\x00b', '\x00', '%2e%2e', '.\\.',
+                'SUB', '\u017fub', 'Index.html', '\udc80', '\u2215', '\uff0f', '\uff0e\uff0e', '\u2024\u2024', '\xfc.txt', '.\u200b.']
 SEPS = ['/', '/', '/', '\\', '//', '/\\', '\\/']
 PREFIXES = ['', '', '', '/', '//', '///', '\\', '{T}/', '{T}/base/root2/', '/etc/passwd/', '{T}/base/root/', '../', '/../',
             '..\\', './/', '{T}/base/root/../root2/']
 
 
-def mk(root, cwd, name, method='GET', rng=None, ims=None, deny=()):
-    return dict(root=root, cwd=cwd, name=name, method=method, range=rng, ims=ims, deny=sorted(deny))
+def mk(root, cwd, name, method='GET', rng=None, ims=None, deny=(), kw=None, root_kind='str'):
+    return dict(root=root, cwd=cwd, name=name, method=method, range=rng, ims=ims, deny=sorted(deny), kw=kw or {},
+                root_kind=root_kind)
 
 
 def corpus():
@@ -206,6 +209,13 @@ def corpus():
         mk(A, '{T}', 'index.html', deny=['isfile']),
         mk(A, '{T}', 'index.html', deny=['exists']),
         mk(A, '{T}', '../root2/secret.txt', method='HEAD', rng='bytes=0-1'),
+        # presentation arguments and the root's type do not move the gate
+        mk(A, '{T}', 'index.html', kw=dict(download=True)), mk(A, '{T}', 'arch.tar.gz', kw=dict(download='../../x')),
+        mk(A, '{T}', '../root2/secret.txt', kw=dict(download=True, mimetype='text/plain')),
+        mk(A, '{T}', 'arch.tar.gz'), mk(A, '{T}', 'sub/page.txt', kw=dict(mimetype=None, charset='')),
+        mk(A, '{T}', 'index.html', root_kind='path'), mk(A + '//', '{T}', '../root2/secret.txt', root_kind='path'),
+        mk('', '{T}/base/root', 'index.html', root_kind='path'), mk('//{T}/base/root', '{T}', 'index.html', root_kind='path'),
+        mk('root/../root', '{T}/base', '../decoy.txt', root_kind='path'),
         # directories that differ from the root (or an ancestor) only in letter case are outside (seeded change C16/4)
         mk(A, '{T}', '../Root/secret.txt'), mk(A, '{T}', '../Root/index.html'), mk(A, '{T}', '../ROOT/sub/page.txt'),
         mk(A, '{T}', '../../BASE/root/index.html'), mk(A, '{T}', '../../Base/ROOT/secret.txt'),
@@ -215,7 +225,7 @@ def corpus():
     return out
 
 
-GOOD = [['index.html'], ['sub', 'page.txt'], ['sub', 'deep', 'x.txt'], ['root2', 'inner.txt'], ['a b.txt'],
+GOOD = [['arch.tar.gz'], ['index.html'], ['sub', 'page.txt'], ['sub', 'deep', 'x.txt'], ['root2', 'inner.txt'], ['a b.txt'],
         ['back\\slash.txt'], ['emptydir'], ['sub']]
 ESCAPES = [['..', 'root2', 'secret.txt'], ['..', 'root2', 'index.html'], ['..', 'rootX', 'secret.txt'],
            ['..', 'roo', 'secret.txt'], ['..', 'decoy.txt'], ['..', '..', 'top.txt'], ['..', 'root', 'index.html'],
@@ -273,7 +283,11 @@ def gen(rng, n):
             ims = rng.choice(['Thu, 01 Jan 2099 00:00:00 GMT', 'Thu, 01 Jan 1980 00:00:00 GMT'])
         elif q < 0.32:
             deny = [rng.choice(['exists', 'isfile', 'access'])]
-        yield mk(root, cwd, gen_name(rng), method, rg, ims, deny)
+        kw = {}
+        if rng.random() < 0.15:
+            kw = rng.choice([dict(download=True), dict(download='other.bin'), dict(mimetype=None), dict(mimetype='text/plain', charset='latin1'),
+                             dict(mimetype='application/x', download=True)])
+        yield mk(root, cwd, gen_name(rng), method, rg, ims, deny, kw, 'path' if rng.random() < 0.15 else 'str')
 
 
 def thorough():
@@ -377,8 +391,12 @@ def run_impl(case):
     ss.os = _OsProxy(log, case['deny'])
     resp = None
     try:
+        root_arg = root
+        if case.get('root_kind') == 'path':
+            import pathlib
+            root_arg = pathlib.Path(root)           # os.PathLike: abspath() takes os.fspath() of it
         with COV:
-            resp = ombott.static_file(name, root)
+            resp = ombott.static_file(name, root_arg, **(case.get('kw') or {}))
     finally:
         ss.os = saved_os
         if had_open:
@@ -512,7 +530,7 @@ def nontrivial(case, obs):
 
 
 def key(case):
-    return (case['root'], case['name'], case['cwd'], case['method'], tuple(case['deny']))
+    return (case['root'], case['name'], case['cwd'], case['method'], tuple(case['deny']), case.get('root_kind'))
 
 
 def classify(case, obs):
@@ -534,9 +552,26 @@ def shrink(case):
         yield dict(case, ims=None)
     if case['deny']:
         yield dict(case, deny=[])
+    if case.get('kw'):
+        yield dict(case, kw={})
+    if case.get('root_kind') == 'path':
+        yield dict(case, root_kind='str')
 
 
 PREDICATES = {}
+
+API_SURFACE = [
+    ('static_file(filename, root)', 'covered: names x roots x working directories over a real tree (corpus, gen, thorough)'),
+    ('root as str / os.PathLike', 'covered by root_kind=str|path (pathlib.Path)'),
+    ('root / filename as bytes', 'excluded: TypeError before anything is opened (abspath(bytes) + os.sep)'),
+    ('os.getcwd()', 'covered: cwd is a case field (os.chdir), model parameter'),
+    ('os.path.exists / isfile / os.access', 'covered: real results recorded, each can be forced false (deny=...)'),
+    ('mimetype= / charset= / download=', 'covered as riders kw=... (must not move the gate or what is opened); their headers: C17 kind present'),
+    ('request.method HEAD, HTTP_RANGE, HTTP_IF_MODIFIED_SINCE', 'covered: decide whether open() is reached after the gate (model sf_opened); details: C17'),
+    ('Globals.request / application binding', 'excluded here: does not influence the gate; covered by C17 via=app|app2'),
+    ('several calls in one process', 'covered: all cases run in one process over one tree; static_stream keeps no state'),
+    ('symbolic links, Windows separators, check/open races', 'excluded: see TRUSTED / ASSUMPTIONS'),
+]
 
 MANIFEST = dict(
     text=('Proof (Coq, all theorems closed under the global context): normpath_normal (every posixpath.normpath result '
